@@ -196,9 +196,11 @@ SV_VCPU_BASE_ADDR = 0xf5007f00 + 0xcc
 def canon_trace(trace, call_map, vcpu):
     """Sort the per-core state reads (pairs: read sv.vcpu_base, read vcpu.cpu_state) of one entry
     `(x, y): cores` of the map by core number: CPython's iteration order over a set of core numbers is not part
-    of the model.  A run of reads on one chip is split between the binaries that name this chip, in map
-    order (each takes the longest prefix of distinct cores it names)."""
-    out, i = [], 0
+    of the model.  The check phase of an attempt walks the entries of the (still unloaded) map in map order,
+    so a run of reads on one chip is matched against the next entries of that chip, each taking the longest
+    prefix of distinct cores it names."""
+    entries = [([x, y], set(ps)) for b, ts in call_map for x, y, ps in ts]
+    out, i, ptr = [], 0, 0
     core = lambda e: (e[4] - vcpu - 46) // 128
     while i < len(trace):
         e = trace[i]
@@ -211,17 +213,24 @@ def canon_trace(trace, call_map, vcpu):
         if not run:
             out.append(e)
             i += 1
+            if e[3] != 2:
+                ptr = 0                       # a new attempt starts the walk over the map again
             continue
-        sets = [set(ps) for b, ts in call_map for x, y, ps in ts if [x, y] == e[:2]]
         j = 0
-        for S in sets:
+        while j < len(run):
+            k = next((n for n in range(ptr, len(entries))
+                      if entries[n][0] == e[:2] and core(run[j][1]) in entries[n][1]), None)
+            if k is None:
+                break
             seg = []
-            while j < len(run) and core(run[j][1]) in S and core(run[j][1]) not in [core(pr[1]) for pr in seg]:
+            while j < len(run) and core(run[j][1]) in entries[k][1] \
+                    and core(run[j][1]) not in [core(pr[1]) for pr in seg]:
                 seg.append(run[j])
                 j += 1
             seg.sort(key=lambda pr: pr[1][4])
             for a, b in seg:
                 out += [a, b]
+            ptr = k + 1
         for a, b in run[j:]:
             out += [a, b]
     return out
@@ -476,17 +485,18 @@ def oracle(c, ci, k, pre, o):
             found.append(("fill-selects-unrequested-core", "a fill selects %r" % sorted(sel - set(named))[:4]
                           if None in bs else "one fill selects cores of different binaries"))
             continue
-        got = [e for f_ in [f] for d in f_["ffd"] for e in d[7]]
         if bs:
             b = bs.pop()
+            why = fill_wellformed(f, c["binaries"][b], m["buffer"], m["base"])
         else:
-            cand = [b for b, _ in k["map"] if c["binaries"][b] == got]
-            b = cand[0] if cand else k["map"][0][0] if k["map"] else None
+            # a fill that selects no core (an entry without cores): any binary of the map may be meant
+            whys = [fill_wellformed(f, c["binaries"][b2], m["buffer"], m["base"]) for b2, _ in k["map"]]
+            why = None if (None in whys or not whys) else whys[0]
+            b = None
+        if why:
+            found.append(("flood-fill-malformed", "fill of binary %s: %s" % (b, why)))
         if b is None:
             continue
-        why = fill_wellformed(f, c["binaries"][b], m["buffer"], m["base"])
-        if why:
-            found.append(("flood-fill-malformed", "fill of binary %d: %s" % (b, why)))
         nth = per_binary.get(b, 0)
         per_binary[b] = nth + 1
         if k["fn"] == "load" and nth > 0:
@@ -499,8 +509,9 @@ def oracle(c, ci, k, pre, o):
     if k["fn"] != "load":
         return found
     bound = max(0, n_tries + 1)
-    if any(v > bound for v in per_binary.values()):
-        found.append(("attempts-unbounded", "%d flood fills of one binary with n_tries=%d" % (max(per_binary.values()), n_tries)))
+    if any(v > bound for v in per_binary.values()) or len(fills) > bound * max(1, len(k["map"])):
+        found.append(("attempts-unbounded", "%d flood fills (at most %d of one binary) with n_tries=%d and %d binaries"
+                      % (len(fills), max(list(per_binary.values()) + [0]), n_tries, len(k["map"]))))
     # ---- the outcome
     post = {(x, y, p): core for x, y, cs in o["state"] for p, core in enumerate(cs)}
     before = {(x, y, p): core for x, y, cs in pre for p, core in enumerate(cs)}
